@@ -28,6 +28,29 @@ type Ctx struct {
 	cErr     error
 }
 
+// Real returns package control type-checked without the stub tag (the real
+// encoders of bpf_utils.go), using the synthesized overlay; a failure to
+// type-check it is a check failure.
+func (c *Ctx) Real(rule string) *core.Prog {
+	if !c.realOnce {
+		c.realOnce = true
+		ov, err := core.RealBuildOverlay(c.Repo)
+		if err == nil {
+			c.real, err = core.Load(core.LoadOpts{Repo: c.Repo, Tags: "", Variant: "real", Overlay: ov, Pattern: "./control"})
+		}
+		c.realErr = err
+		if err == nil {
+			vs, _ := c.R.Extra["variants"].([]string)
+			c.R.Extra["variants"] = append(vs, "real build of package control (no tag; bpf_stub.go residue as overlay)")
+		}
+	}
+	if c.realErr != nil {
+		c.R.Check(rule, "real-build variant of package control", "-", false, "cannot type-check the !dae_stub_ebpf configuration: "+c.realErr.Error())
+		return nil
+	}
+	return c.real
+}
+
 // Checker is one property's rule set.
 type Checker struct {
 	ID      string
